@@ -169,11 +169,7 @@ def run(ctx, proofs):
         "samples": [disagreements[0]] if disagreements else samples,
         "disagreements_model_vs_impl": len(disagreements),
         "spec_failures": len(failing),
-        "open_statements": [
-            {"name": "C13_exhausted_equality_full_statement",
-             "statement": "when the decisions run out at a condition the walk stops at the same point (trace = walk); "
-                          "proved only as a prefix (C13_cfg_contains_source) and as equality when the program runs to its end",
-             "reason": "time box; observed true on every explored (program, decision list) pair"}],
+        "open_statements": [],   # C13_exhausted_equality is proved (coq/proofs/LiftExhausted.v)
     })
     ctx.assumptions += [
         "the skeleton abstraction of C12 (lifting looks only at statement kinds); leaf statements and conditions are "
